@@ -190,7 +190,7 @@ CHECKS = {
              'with several representatives per class and compiled bare and inside 15 closed and unterminated contexts; oracle = outcome '
              'class {compiled, SelectorSyntaxError, NotImplementedError, KeyError only for case-colliding custom names}.',
         design_ref='§6 C06',
-        note='The character-level tokenizer is not modelled (no Lexer.tla): the parser model works on token kinds; accept/reject agreement is drift, not a verdict; '
+        note='Lexer.tla (character level) and Parser.tla (token level) are bound to the code by DEBUG token streams and outcomes; their agreement is recorded, not a verdict; '
              'Unicode abstracted by classes; nesting depth tiny compared to the recursion budget.',
         technique='TLA+ resolver state machine with liveness checked by TLC; TLC-enumerated class strings and custom maps replayed into compile(); outcome-class oracle'),
     'C20': dict(
@@ -242,8 +242,9 @@ CHECKS = {
              'annotated pool covering every construct that has a slot and prints its text; law over the code: compile(spelling).selectors == '
              'compile(canonical).selectors, equal select results on an HTML and an XML document, no syntax error for a respelling.',
         design_ref='§6 C09',
-        note='Slots are annotated by hand in the pool; the design-level theorem T-Spelling over a lexer model is not claimed (no Lexer.tla): the '
-             'oracle is code-vs-code; deviations <= 2 per spelling.',
+        note='Slots are annotated by hand in the pool; deviations <= 2 per spelling; T-Spelling (every respelling lexes, per Lexer.tla, to the same '
+             'token kinds and combinators as the canonical one) is a TLC invariant, and Lexer.tla is bound to the code by the DEBUG token stream of '
+             'every respelling (agreement recorded, not a verdict); the verdict is the code-vs-code structural-equality law.',
         technique='TLA+ rewrite-rule model; TLC-enumerated respellings compiled by the real parser; structural-equality law'),
     'C07': dict(
         category='exploration',
